@@ -102,6 +102,7 @@ type PathResult struct {
 	Foreign   []string
 	Decisions int
 	Steps     int64
+	Unconfirmed  bool // the solver gave no verdict on the finished path condition: no certified model
 	StubDiverged bool // an uninterpreted conversion's error flag differs from the real function on the model's bytes
 }
 
@@ -129,6 +130,7 @@ type Explorer struct {
 	SolverQueries, SolverSat, SolverUnsat, SolverUnknown, SolverErrors int
 	finished  int64
 	StubDiverged int64
+	Unconfirmed  int64
 	canon     int
 	violPerID map[string]int
 	UnknownAsserts map[string]int64
@@ -331,7 +333,10 @@ func (ex *Explorer) record(w *Worker, r *PathResult) {
 	if r.StubDiverged {
 		ex.StubDiverged++
 	}
-	if (r.Outcome == "ok" || r.Outcome == "panic") && len(r.Violations) == 0 && !r.StubDiverged {
+	if r.Unconfirmed {
+		ex.Unconfirmed++
+	}
+	if (r.Outcome == "ok" || r.Outcome == "panic") && len(r.Violations) == 0 && !r.StubDiverged && !r.Unconfirmed {
 		k := int64(ex.Cfg.SampleEvery)
 		if k <= 0 {
 			k = 1
@@ -477,6 +482,10 @@ func (in *Interp) RunPath(fn *ssa.Function, it *WorkItem) (res *PathResult) {
 				}
 				res.Outcome = "unencodable"
 				res.Msg = "ENGINE: solver refutes a path condition the engine considered feasible"
+			} else {
+				// no verdict within the time limit: assertions on this path were
+				// each discharged by their own query; only the sample is lost
+				res.Unconfirmed = true
 			}
 		}
 		res.Vector = in.vector(p.model)
